@@ -486,6 +486,42 @@ close_run(Params *p)
 	}
 
 	// what to close
+	// now and then the application looks at its pipes first: every getter, with option names the pipe has and
+	// names it has not (a failed look-up must leave nothing behind that a close would then wait for)
+	if (!w.pipes.empty() && W(0, 2) == 0) {
+		static const char *const NAMES[] = { NNG_OPT_LOCADDR, "remote-address", NNG_OPT_RECVMAXSZ, "no-such-option",
+			NNG_OPT_WS_REQUEST_URI, NNG_OPT_TCP_NODELAY, NNG_OPT_PEER_UID };
+		int looks = 1 + (int) W(0, 5);
+		for (int i = 0; i < looks; i++) {
+			nng_pipe pp;
+			pp.id            = w.pipes[(size_t) W(0, (long) w.pipes.size() - 1)];
+			const char *name = NAMES[W(0, 6)];
+			char        buf[64];
+			char       *dup = NULL;
+			const char *str = NULL;
+			size_t      sz  = 0;
+			int         iv  = 0;
+			bool        bv  = false;
+			nng_duration ms = 0;
+			int         rv  = 0;
+			switch (W(0, 7)) {
+			case 0: rv = nng_pipe_get_strcpy(pp, name, buf, sizeof(buf)); break;
+			case 1:
+				rv = nng_pipe_get_strdup(pp, name, &dup);
+				if (rv == 0)
+					nng_strfree(dup);
+				break;
+			case 2: rv = nng_pipe_get_strlen(pp, name, &sz); break;
+			case 3: rv = nng_pipe_get_string(pp, name, &str); break;
+			case 4: rv = nng_pipe_get_int(pp, name, &iv); break;
+			case 5: rv = nng_pipe_get_bool(pp, name, &bv); break;
+			case 6: rv = nng_pipe_get_size(pp, name, &sz); break;
+			default: rv = nng_pipe_get_ms(pp, name, &ms); break;
+			}
+			sim_event("pipe %x option %s -> %d", pp.id, name, rv);
+			sim_probe(rv == 0 ? "c10_pipe_option_ok" : "c10_pipe_option_failed");
+		}
+	}
 	long target = W(0, 5); // 0,1 socket; 2 ctx; 3 endpoint; 4 pipe; 5 socket twice concurrently
 	uint64_t t0 = sim_now_ns(), s0 = sim_stall_total_ns();
 	w.closing   = 1;
